@@ -259,6 +259,35 @@ for sh, K, V in (("u8", "u8", "u8"), ("id", "Key", "u8")):
     add("c16_set_collect_" + sh, "c16::h_set_from::<%s, {N}, {L}>(1)" % K, ["C16"], [{"N": 2, "L": 3}], [{"N": 3, "L": 4}], unwind="max(N,L)+2", fn="Iterator::collect into Set", shape=S)
     add("c16_set_from_array_" + sh, "c16::h_set_from_array::<%s, {N}>()" % K, ["C16"], Q3, T3, fn="From<[T;N]> for Set", shape=S)
 
+# ------------------------------------------------------------------ C08 set algebra
+def NMS(pairs):
+    return [{"N": n, "M": m, "S": n + m} for n, m in pairs]
+
+
+def NML(pairs):
+    """every fill level of every capacity pair"""
+    return [{"N": n, "M": m, "S": n + m, "A": la, "B": lb} for n, m in pairs for la in range(n + 1) for lb in range(m + 1)]
+
+
+for i, op in enumerate(("union", "intersection", "difference", "symmetric_difference")):
+    add("c08_" + op, "c08::h_setop::<{N}, {M}, {S}>(%d, {A}, {B})" % i, ["C08", "C06"], NML([(1, 1), (2, 1)]), NML([(2, 2), (3, 2), (2, 3)]),
+        unwind="max(N,M)+2", fn="Set::%s and its iterator (next, size_hint)" % op, shape="S_u8", timeout="30m")
+    add("c08_fold_" + op, "c08::h_setop_fold::<{N}, {M}, {S}>(%d, {A}, {B})" % i, ["C08"], [{"N": 1, "M": 1, "S": 2, "A": 1, "B": 1}, {"N": 2, "M": 1, "S": 3, "A": 2, "B": 1}],
+        NML([(2, 1), (2, 2)]), unwind="max(N,M,S)+2", fn="%s::fold" % op, shape="S_u8", timeout="30m")
+add("c08_predicates", "c08::h_set_pred::<{N}, {M}>()", ["C08"], NM([(0, 0), (0, 1), (1, 1), (2, 1), (1, 2), (2, 2)]), NM(sq(3)), unwind="max(N,M)+2",
+    fn="Set::is_subset, is_superset, is_disjoint", shape="S_u8")
+add("c08_sub", "c08::h_set_sub::<{N}, {M}>()", ["C08"], NM([(0, 1), (1, 1), (2, 1), (2, 2)]), NM([(2, 2), (3, 2), (2, 3), (3, 3)]), unwind="max(N,M)+3",
+    fn="Sub for &Set", shape="S_u8", timeout="30m")
+add("c08_difference_ref", "c08::h_difference_ref::<{N}, {M}>()", ["C08"], NM([(1, 1), (2, 1), (1, 2)]), NM([(2, 2), (3, 2)]), unwind="max(N,M)+4",
+    fn="Set::difference_ref and DifferenceRef", shape="Set<&u8>", timeout="30m")
+
+# ------------------------------------------------------------------ K-contracts (function contracts on the real functions)
+for sh, K, V in (("u8", "u8", "u8"),):
+    add("kc_insert_ii_full_frame_" + sh, "core_contracts::h_insert_ii_full_frame::<%s, %s, {N}>(false)" % (K, V), ["C03", "C05"], N_(0, 1, 2), T3,
+        profile="both", expect=PANIC(*FULL_PANIC), contracts=True, kind="contract", backend="kani-contract",
+        attrs=["#[kani::proof_for_contract(Map::<%s, %s, {N}>::insert_ii)]" % (K, V)],
+        fn="Map::insert_ii under requires(full && key absent) modifies() - nothing is written before the panic", shape="S_" + sh)
+
 
 def units_for(prop):
     return [u for u in UNITS if prop in u.props or "*" in u.props]
